@@ -15,6 +15,8 @@ FLAVOURS = {
     "plain": dict(cxx="g++", flags=["-O2", "-g1"], link=[]),
     "tsan": dict(cxx="clang++", flags=["-O1", "-g", "-fsanitize=thread", "-fno-omit-frame-pointer", "-DSIM_NO_ALLOC_SEAM", "-DSIM_TSAN"],
                  link=["-fsanitize=thread"]),
+    # diagnostic only (bin/coverage.sh): which library functions do the checks reach at all
+    "cov": dict(cxx="clang++", flags=["-O0", "-g", "-DSIM_NO_ALLOC_SEAM"], link=["-fprofile-instr-generate"]),
 }
 COMMON = ["-msse4", "-Wall", "-Wno-unused-function", "-Wno-sign-compare", "-Wno-unused-variable", "-pthread"]
 
@@ -47,6 +49,8 @@ def build(flavour, verbose=False):
         if flavour == "tsan" and os.path.basename(src) in ("simfs.cpp", "simsched.cpp", "alloc.cpp"):
             # harness state shared between simulated threads lives in uninstrumented translation units (DESIGN 2.1-6)
             flags = [f for f in flags if f != "-fsanitize=thread"]
+        if flavour == "cov":   # (harness units too: the header-only parts of the library are instantiated there)
+            flags = flags + ["-fprofile-instr-generate", "-fcoverage-mapping"]
         if flavour == "tsan" and src.startswith(os.path.join(REPO, "src")) and "/bin/" not in src:
             # pre-emption points: one callback per basic block of library code (sched.cpp)
             flags = flags + ["-fsanitize-coverage=trace-pc-guard"]
